@@ -20,13 +20,27 @@ func stubHcNodeLocationZone(hc *HeaderChain) common.Location { return qiLoc }
 //  * CalcOrder returns the same (entropy, order) cold and from its cache, and order is in {0,1,2};
 //  * TotalLogEntropy and DeltaLogEntropy return the same value when called again (the cache is not
 //    corrupted by the first call);
-//  * TotalLogEntropy(block) > the recorded parent entropy of the block's order.
+//  * TotalLogEntropy(block) > the recorded parent entropy of the block's order;
+//  * the entropy targets the order thresholds are built from are unchanged by the classification (cold
+//    recomputation on a second chain instance: H-C09-b2, thorough).
 //
 // verif:stub (*core/types.WorkObject).Hash => stubWoHash
 // verif:stub (*core.HeaderChain).IsGenesisHash => stubHcIsGenesisHash
 // verif:stub (*core.HeaderChain).NodeLocation => stubHcNodeLocationZone
 // verif:bounds bigbits=272
-func VerifH_C09_b() {
+func VerifH_C09_b() { c09OrderStability(false) }
+
+// H-C09-b2: as H-C09-b, and in addition a second chain instance with a cold order cache (another node, or this
+// node after a restart) computes the same (entropy, order) for the same header.
+//
+// verif:stub (*core/types.WorkObject).Hash => stubWoHash
+// verif:stub (*core.HeaderChain).IsGenesisHash => stubHcIsGenesisHash
+// verif:stub (*core.HeaderChain).NodeLocation => stubHcNodeLocationZone
+// verif:bounds bigbits=272 budget=40m
+// verif:tier thorough
+func VerifH_C09_b2() { c09OrderStability(true) }
+
+func c09OrderStability(coldRecomputation bool) {
 	eng := &modelEngine{hash: common.BytesToHash(vBytes("powHash", 32))}
 	cache, _ := lru.New[common.Hash, calcOrderResponse](16)
 	hc := &HeaderChain{powConfig: params.PowConfig{PowMode: params.ModeNormal}, engine: []consensus.Engine{eng}, calcOrderCache: cache}
@@ -71,6 +85,18 @@ func VerifH_C09_b() {
 	vAssert("entropy/total-stable-across-calls", t2.Cmp(t1) == 0)
 	vAssert("entropy/delta-stable-across-calls", d2.Cmp(d1) == 0)
 	vAssert("entropy/strictly-above-recorded-parent", t1.Cmp(wo.ParentEntropy(o1)) > 0)
+	// the protocol targets the thresholds are built from are not changed by classifying a header (they are
+	// shared package-level values; the logarithm helper works in place on its argument)
+	vAssert("targets/entropy-targets-unchanged-by-classification", params.PrimeEntropyTarget(0).Cmp(big.NewInt(4)) == 0 && params.RegionEntropyTarget(0).Cmp(big.NewInt(2)) == 0)
+	if coldRecomputation {
+		// a cold computation (another chain instance / after a restart: empty order cache) classifies the same
+		// header the same way — the order is a function of the seal and the recorded deltas, not of what was
+		// classified before
+		cache2, _ := lru.New[common.Hash, calcOrderResponse](16)
+		hc2 := &HeaderChain{powConfig: params.PowConfig{PowMode: params.ModeNormal}, engine: []consensus.Engine{eng}, calcOrderCache: cache2}
+		e3, o3, err3 := hc2.CalcOrder(wo)
+		vAssert("order/stable-across-cold-computations", err3 == nil && o3 == o1 && e3.Cmp(e1v) == 0)
+	}
 }
 
 // ---- H-C09-a: verifyHeader, zone context, with every protocol derivation an uninterpreted value ----
